@@ -87,6 +87,9 @@ pub fn issuers() -> Issuers {
     let mut list = vec![mk_issuer(&DnSpec::cn("crl issuer"), &KeyIdSpec::Sha256, &[], Alg::Ed25519)];
     let mut labels = vec!["CN, no key usages, Ed25519".to_string()];
     for (l, dn) in dn_values() {
+        if l.starts_with("uc:") {
+            continue;
+        }
         list.push(mk_issuer(&dn, &KeyIdSpec::Sha256, &[], Alg::Ed25519));
         labels.push(format!("dn={}", l));
     }
@@ -101,7 +104,7 @@ pub fn issuers() -> Issuers {
     Issuers { list, labels }
 }
 
-pub fn crl_space(iss: &Issuers) -> Space<CrlCase> {
+pub fn crl_space(iss: &Issuers, conformant_only: bool) -> Space<CrlCase> {
     let mut dims: Vec<Dim<CrlCase>> = Vec::new();
     let ins = instants();
     let mut d = Dim::new("updates");
@@ -119,7 +122,7 @@ pub fn crl_space(iss: &Issuers) -> Space<CrlCase> {
     }
     dims.push(d);
     let mut d = Dim::new("crl_number");
-    let numbers: Vec<(&str, Vec<u8>)> = vec![("7f", vec![0x7f]), ("80", vec![0x80]), ("00 80", vec![0, 0x80]), ("00 01", vec![0, 1]), ("empty", vec![]), ("00", vec![0]), ("u64", 0xfedcba9876543210u64.to_be_bytes().to_vec()), ("20 x ff", vec![0xff; 20]), ("21 bytes", vec![0x11; 21])];
+    let numbers: Vec<(&str, Vec<u8>)> = vec![("7f", vec![0x7f]), ("80", vec![0x80]), ("00 80", vec![0, 0x80]), ("00 01", vec![0, 1]), ("nc:empty", vec![]), ("00", vec![0]), ("u64", 0xfedcba9876543210u64.to_be_bytes().to_vec()), ("nc:20 x ff", vec![0xff; 20]), ("nc:21 bytes", vec![0x11; 21])];
     for (l, b) in numbers {
         d = d.v(l, move |c: &mut CrlCase| c.st.crl_number = b.clone());
     }
@@ -159,6 +162,11 @@ pub fn crl_space(iss: &Issuers) -> Space<CrlCase> {
         d = d.v(iss.labels[i].clone(), move |c: &mut CrlCase| c.issuer = i);
     }
     dims.push(d);
+    if conformant_only {
+        for d in dims.iter_mut() {
+            d.values.retain(|(l, _)| !l.contains("nc:") && l != "dn=empty");
+        }
+    }
     Space { base: CrlCase { st: CrlState::default(), issuer: 0 }, dims }
 }
 
@@ -265,12 +273,18 @@ pub fn run(prop: &str, tier: &str, replay: Option<&str>) -> i32 {
     let mut rep = Report::new(prop, tier);
     rep.assume("revocation verdicts come from OpenSSL X509_CRL_get0_by_serial and webpki find_serial on the DER (no signature check is involved in a lookup); OpenSSL's removeFromCRL answer counts as listed");
     rep.assume("signatures come from the stub signer; C01 checks CRL signatures with real keys");
+    add_sections(&mut rep, prop, thorough, false);
+    run::finish(rep)
+}
+
+/// The CRL sections; also used by C04 / C05.
+pub fn add_sections(rep: &mut Report, prop: &str, thorough: bool, conformant_only: bool) {
     let known = load_known(prop);
     let iss = issuers();
-    let space = crl_space(&iss);
+    let space = crl_space(&iss, conformant_only);
     let cap = if thorough { 1100 } else { 50 };
     {
-        let sec = Section::new("levels/crl", "all CRL states with exactly k non-default dimensions (updates 143, crl_number 9, idp 9, revoked 8, key_id 5, issuer 23)").with_deadline(cap);
+        let sec = Section::new("crl/levels", "all CRL states with exactly k non-default dimensions (updates 143, crl_number 9, idp 9, revoked 8, key_id 5, issuer 23)").with_deadline(cap);
         run::levels(&sec, &space, if thorough { 5 } else { 3 }, &|c, _| judge(prop, &known, c, &iss, true));
         rep.add(sec);
     }
@@ -302,7 +316,7 @@ pub fn run(prop: &str, tier: &str, replay: Option<&str>) -> i32 {
                 }
             }
         }
-        let sec = Section::new("sweep/revoked-lists", "[] + every atom (6 serials x 3 times x 11 reasons x 3 invalidity dates = 594) alone + all ordered pairs of the atoms one component away from the base + triples over 5 atoms; each list judged by the decoder and by OpenSSL/webpki lookups of every listed serial and its +-1 neighbours");
+        let sec = Section::new("crl/sweep/revoked-lists", "[] + every atom (6 serials x 3 times x 11 reasons x 3 invalidity dates = 594) alone + all ordered pairs of the atoms one component away from the base + triples over 5 atoms; each list judged by the decoder and by OpenSSL/webpki lookups of every listed serial and its +-1 neighbours");
         run::sweep_cases(&sec, &lists, &|l| format!("revoked={:?}", l.iter().map(|r| format!("{:02x?}/{}/{:?}/{:?}", r.serial, r.time.label(), r.reason, r.invalidity.map(|t| t.label()))).collect::<Vec<_>>()), &|l| {
             let c = CrlCase { st: CrlState { revoked: l.clone(), ..CrlState::default() }, issuer: 0 };
             judge(prop, &known, &c, &iss, true)
@@ -319,7 +333,7 @@ pub fn run(prop: &str, tier: &str, replay: Option<&str>) -> i32 {
         }
         let issuers512: Vec<IssuerReal> = (0..512u16).map(|m| mk_issuer(&DnSpec::cn("ku issuer"), &KeyIdSpec::Sha256, &(0..9u8).filter(|i| m >> i & 1 == 1).collect::<Vec<_>>(), Alg::Ed25519)).collect();
         let ins = instants();
-        let sec = Section::new("sweep/issuer-key-usage-512 x updates-3", "every issuer key-usage subset x {next after this, next equal this, next before this}: refusal iff cRLSign is missing from a non-empty set or encoded next <= encoded this");
+        let sec = Section::new("crl/sweep/issuer-key-usage-512 x updates-3", "every issuer key-usage subset x {next after this, next equal this, next before this}: refusal iff cRLSign is missing from a non-empty set or encoded next <= encoded this");
         run::sweep_cases(&sec, &cases, &|c| format!("issuer ku={:09b} ordering={}", c.0, c.1), &|c| {
             let (this, next) = match c.1 {
                 0 => (ins[0].1, ins[11].1),
@@ -348,7 +362,10 @@ pub fn run(prop: &str, tier: &str, replay: Option<&str>) -> i32 {
                 nums.push(vec![a, b]);
             }
         }
-        let sec = Section::new("sweep/crl-number-bytes<=2", "every CRL number byte string of length <= 2; the same strings as revoked serials (thorough)");
+        if conformant_only {
+            nums.retain(|n| !n.is_empty());
+        }
+        let sec = Section::new("crl/sweep/crl-number-bytes<=2", "every CRL number byte string of length <= 2; the same strings as revoked serials (thorough)");
         run::sweep_cases(&sec, &nums, &|n| format!("crl_number={:02x?}", n), &|n| {
             let mut st = CrlState { crl_number: n.clone(), ..CrlState::default() };
             if thorough || n.len() < 2 {
@@ -359,5 +376,4 @@ pub fn run(prop: &str, tier: &str, replay: Option<&str>) -> i32 {
         });
         rep.add(sec);
     }
-    run::finish(rep)
 }
